@@ -425,6 +425,7 @@ inductive Out where
   | val (v : Option Bytes)
   | bool (b : Bool)
   | kvs (l : List KV)
+  | panic                 -- only the engine-specific empty-key rules produce it (C19Compose)
 deriving Repr, DecidableEq
 
 def stepI {σ : Type} (I : DBI σ) (db : σ) : Op → σ × Out
